@@ -196,6 +196,7 @@ pub struct SimSettings {
     pub flow: u8,
     /// `set_baud_rate` fails on this settings object.
     pub fail_set_baud: bool,
+    pub fail_kind: u8,
 }
 
 /// Hashable mirror of `serial_core::BaudRate`.
@@ -231,7 +232,7 @@ impl SerialPortSettings for SimSettings {
     }
     fn set_baud_rate(&mut self, baud_rate: BaudRate) -> serial_core::Result<()> {
         if self.fail_set_baud {
-            return Err(serial_core::Error::new(serial_core::ErrorKind::InvalidInput, "simulated: baud rate not supported"));
+            return Err(serial_core::Error::new(ERR_KINDS[self.fail_kind as usize], "simulated: baud rate not supported"));
         }
         self.baud = BaudRate2(baud_rate.speed());
         Ok(())
@@ -271,17 +272,29 @@ pub struct Device {
     pub settings: SimSettings,
     pub timeout: Duration,
     pub fail: CfgFail,
+    /// Which error the failing call reports (index into `ERR_KINDS`).
+    pub fail_kind: usize,
     pub calls: Vec<CfgCall>,
 }
 
 impl Device {
     pub fn new(settings: SimSettings) -> Self {
-        Device { settings, timeout: Duration::from_millis(1), fail: CfgFail::None, calls: Vec::new() }
+        Device { settings, timeout: Duration::from_millis(1), fail: CfgFail::None, fail_kind: 0, calls: Vec::new() }
     }
     pub fn default_odd() -> Self {
-        Device::new(SimSettings { baud: BaudRate2(110), char_size: 2, parity: 2, stop_bits: 1, flow: 1, fail_set_baud: false })
+        Device::new(SimSettings { baud: BaudRate2(110), char_size: 2, parity: 2, stop_bits: 1, flow: 1, fail_set_baud: false, fail_kind: 0 })
     }
 }
+
+/// Error kinds a refusing device may report.
+pub const ERR_KINDS: [serial_core::ErrorKind; 6] = [
+    serial_core::ErrorKind::NoDevice,
+    serial_core::ErrorKind::InvalidInput,
+    serial_core::ErrorKind::Io(io::ErrorKind::PermissionDenied),
+    serial_core::ErrorKind::Io(io::ErrorKind::Unsupported),
+    serial_core::ErrorKind::Io(io::ErrorKind::TimedOut),
+    serial_core::ErrorKind::Io(io::ErrorKind::Other),
+];
 
 /// The byte-moving half of a simulated port.
 pub trait Wire {
@@ -322,19 +335,21 @@ impl<W: Wire> SerialDevice for SimPort<W> {
 
     fn read_settings(&self) -> serial_core::Result<SimSettings> {
         if self.dev.fail == CfgFail::ReadSettings {
-            return Err(serial_core::Error::new(serial_core::ErrorKind::NoDevice, "simulated: read_settings failed"));
+            return Err(serial_core::Error::new(ERR_KINDS[self.dev.fail_kind], "simulated: read_settings failed"));
         }
         let mut s = self.dev.settings;
         s.fail_set_baud = self.dev.fail == CfgFail::SetBaudRate;
+        s.fail_kind = self.dev.fail_kind as u8;
         Ok(s)
     }
 
     fn write_settings(&mut self, settings: &SimSettings) -> serial_core::Result<()> {
         if self.dev.fail == CfgFail::WriteSettings {
-            return Err(serial_core::Error::new(serial_core::ErrorKind::Io(io::ErrorKind::PermissionDenied), "simulated: write_settings failed"));
+            return Err(serial_core::Error::new(ERR_KINDS[self.dev.fail_kind], "simulated: write_settings failed"));
         }
         let mut s = *settings;
         s.fail_set_baud = false;
+        s.fail_kind = 0;
         self.dev.calls.push(CfgCall::WriteSettings(s));
         self.dev.settings = s;
         Ok(())
@@ -346,7 +361,7 @@ impl<W: Wire> SerialDevice for SimPort<W> {
 
     fn set_timeout(&mut self, timeout: Duration) -> serial_core::Result<()> {
         if self.dev.fail == CfgFail::SetTimeout {
-            return Err(serial_core::Error::new(serial_core::ErrorKind::Io(io::ErrorKind::Unsupported), "simulated: set_timeout failed"));
+            return Err(serial_core::Error::new(ERR_KINDS[self.dev.fail_kind], "simulated: set_timeout failed"));
         }
         self.dev.calls.push(CfgCall::SetTimeout(timeout.as_millis() as u64));
         self.dev.timeout = timeout;
@@ -416,6 +431,36 @@ pub struct ScriptWire {
     pub op_index: usize,
     /// Real instants of every op start/end (C18 measures real elapsed time too).
     pub real: Vec<(std::time::Instant, std::time::Instant)>,
+    /// Real-time latency of the far end: the next successful read first sleeps this long (once).
+    /// Needed because code under test may consult the real monotonic clock directly.
+    pub real_delay_next_read: Option<Duration>,
+    /// Simulated latency added to the clock by every successful read.
+    pub sim_read_latency_ns: u64,
+}
+
+/// A `ScriptWire` that stays reachable after the port has been moved into the code under test.
+#[derive(Clone, Debug)]
+pub struct SharedWire(pub std::sync::Arc<std::sync::Mutex<ScriptWire>>);
+
+impl SharedWire {
+    pub fn new(w: ScriptWire) -> Self {
+        SharedWire(std::sync::Arc::new(std::sync::Mutex::new(w)))
+    }
+    pub fn lock(&self) -> std::sync::MutexGuard<'_, ScriptWire> {
+        match self.0.lock() {
+            Ok(g) => g,
+            Err(p) => p.into_inner(),
+        }
+    }
+}
+
+impl Wire for SharedWire {
+    fn wire_read(&mut self, buf: &mut [u8], timeout: Duration) -> io::Result<usize> {
+        self.lock().wire_read(buf, timeout)
+    }
+    fn wire_write(&mut self, buf: &[u8]) -> io::Result<usize> {
+        self.lock().wire_write(buf)
+    }
 }
 
 impl ScriptWire {
@@ -435,6 +480,8 @@ impl ScriptWire {
             fail_at: None,
             op_index: 0,
             real: Vec::new(),
+            real_delay_next_read: None,
+            sim_read_latency_ns: 0,
         }
     }
 
@@ -478,6 +525,10 @@ impl Wire for ScriptWire {
                 if buf.len() > 1 {
                     self.cx.probe("reader_offered_gt_1_byte");
                 }
+                if let Some(d) = self.real_delay_next_read.take() {
+                    std::thread::sleep(d);
+                }
+                self.clock.advance(self.sim_read_latency_ns);
                 buf[..n].copy_from_slice(&self.incoming[self.pos..self.pos + n]);
                 self.pos += n;
                 Ok(n)
